@@ -345,6 +345,8 @@ class Folder(object):
                 if f.attr == "extend":
                     args = [self._iterate(args[0])]
                 return getattr(recv, f.attr)(*args)
+            if isinstance(recv, dict) and f.attr == "terms" and hasattr(recv, "terms") and not args:
+                return list(recv.terms())
             if isinstance(recv, dict) and f.attr in SAFE_DICT_METHODS:
                 r = getattr(recv, f.attr)(*args)
                 return list(r) if f.attr in ("items", "keys", "values") else r
